@@ -93,7 +93,14 @@ class Scenario:
             self.cmdl = _Cmd(self.sim, self.results, onstart, onstop)
             self.sim.add_listener(Simulator.START_EVENT, self.cmdl)
             self.sim.add_listener(Simulator.STOP_EVENT, self.cmdl)
-        self.worker = self.sim._Simulator__worker
+        # private names are looked up defensively: after a rename the layer loses interleaving points (reported as binding
+        # divergences in the evidence) but the verdicts, which use public state only, stay available
+        self.worker = getattr(self.sim, "_Simulator__worker", None)
+        if self.worker is None:
+            from pydsol.core.simulator import SimulatorWorkerThread
+            self.worker = next(t for t in threading.enumerate() if isinstance(t, SimulatorWorkerThread) and t.is_alive()
+                               and any(v is self.sim for v in vars(t).values()))
+        self.wake = next((v for v in vars(self.worker).values() if isinstance(v, sched.IEvent)), None)
         # the worker is parked in wait(): take it under control
         t0 = time.time()
         while not self.worker.is_waiting() and time.time() - t0 < 3:
@@ -150,10 +157,10 @@ class Scenario:
 
     def state(self):
         d = self.sim.__dict__
-        rs = d.get("_i__run_state")
-        rep = d.get("_i__replication_state")
+        rs = self.sim.run_state                 # (read on the scheduler's thread: not an announced access)
+        rep = self.sim.replication_state
         return {"rs": getattr(rs, "name", rs), "rep": getattr(rep, "name", rep), "runflag": d.get("_i__runflag"),
-                "fin": self.worker.__dict__.get("_i__finalized"), "flag": self.worker._SimulatorWorkerThread__wakeup_flag.is_set(),
+                "fin": self.worker.is_finalized(), "flag": self.wake.is_set() if self.wake is not None else None,
                 "waiting": self.worker.is_waiting(), "executed": list(self.model.executed), "results": list(self.results),
                 "done": sorted(SCHED.done)}
 
@@ -166,10 +173,13 @@ class Scenario:
         try:
             with dd.quiet():
                 w = self.worker
-                w.__dict__["_i__finalized"] = True
-                w._SimulatorWorkerThread__wakeup_flag._flag = True
-                with w._SimulatorWorkerThread__wakeup_flag._real:
-                    w._SimulatorWorkerThread__wakeup_flag._real.notify_all()
+                if "_i__finalized" in w.__dict__:
+                    w.__dict__["_i__finalized"] = True
+                w.cleanup()                       # public: finalises the thread and wakes it up (the scheduler is released)
+                if self.wake is not None:
+                    self.wake._flag = True
+                    with self.wake._real:
+                        self.wake._real.notify_all()
                 w.join(1.0)
         except Exception:
             pass
